@@ -57,7 +57,9 @@ def enqTags (now : Nat) (q : Queue) (ps : List Proposal) : List String × Queue 
          else ["enq-lower-ignored"]) ++
         (if qExpired now ex then ["enq-meets-expired-unpurged-record"] else []) ++
         (if ex.removed then ["enq-meets-handed-record"] else [])
-    (tags ++ tag, enqueue1 now q p)) ([], q)
+    let sib := if q.any (fun e => e.2.proposal.upkeepID == p.upkeepID && e.1 != p.workID)
+      then ["enq-sibling-workid-of-same-upkeep-queued"] else []
+    (tags ++ tag ++ sib, enqueue1 now q p)) ([], q)
 
 def viewTags (expr now : Nat) (m : OMap) : List String :=
   let ks := sortStrings m.keys
@@ -104,8 +106,20 @@ def walkStep (tg : String → Nat) (w : Walk) (i : Nat) (rop : RawOp) (out : Opt
     let pend := sf.flatten.any (fun p =>
       (tg p.upkeepID == logT && (st.ms.log.values.get p.workID).isSome) ||
       (tg p.upkeepID == condT && (st.ms.cond.values.get p.workID).isSome))
+    let fl := sf.flatten
+    let isPend := fun (p : Proposal) =>
+      (tg p.upkeepID == logT && (st.ms.log.values.get p.workID).isSome) ||
+      (tg p.upkeepID == condT && (st.ms.cond.values.get p.workID).isSome)
+    -- two surfaced proposals of one upkeep with different work ids (several logs of a log upkeep)
+    let sibl := fl.any (fun p => fl.any (fun p' => p'.upkeepID == p.upkeepID && p'.workID != p.workID))
+    let siblPend := fl.any (fun p => isPend p && fl.any (fun p' => p'.upkeepID == p.upkeepID && p'.workID != p.workID && isPend p'))
+    let siblRounds := sf.any (fun rd => rd.any (fun p => sf.any (fun rd' => rd' != rd &&
+      rd'.any (fun p' => p'.upkeepID == p.upkeepID && p'.workID != p.workID && isPend p && isPend p'))))
     { w with st := step tg st (.outcome sf), ops := .outcome sf :: w.ops,
              tags := w.tags ++ ["outcome"] ++ (if pend then ["outcome-removes-pending-proposal"] else []) ++
+                     (if sibl then ["outcome-same-upkeep-several-workids"] else []) ++
+                     (if siblPend then ["outcome-same-upkeep-several-workids-pending"] else []) ++
+                     (if siblRounds then ["outcome-same-upkeep-workids-pending-in-different-rounds"] else []) ++
                      (enqTags st.now st.q sf.flatten).1 }
   | .view t =>
     let want := (st.ms.viewProposals t st.now).1
@@ -121,12 +135,17 @@ def walkStep (tg : String → Nat) (w : Walk) (i : Nat) (rop : RawOp) (out : Opt
     let op := Op.deq t n order
     let (cands, _) := dequeueScan tg t st.now order st.q []
     let want := (dequeue tg t n st.now order st.q).1
+    let sameUpkeep := want.any (fun p => want.any (fun p' => p'.upkeepID == p.upkeepID && p'.workID != p.workID))
+    let sameUpkeepSplit := want.any (fun p => st.q.any (fun e =>
+      e.2.proposal.upkeepID == p.upkeepID && e.1 != p.workID && !want.contains e.2.proposal && !qExpired st.now e.2))
     let w := w.note i "dequeue" want got
     let keysOf := want.map (fun p => (p.workID, p.trigger.blockNumber))
     let dt :=
       (if !want.isEmpty then ["deq-hands-out"] else ["deq-empty"]) ++
       (if st.q.any (fun e => qExpired st.now e.2) then ["deq-purges-expired"] else []) ++
       (if cands.length > n then ["deq-limited-by-n"] else []) ++
+      (if sameUpkeep then ["deq-hands-two-workids-of-one-upkeep"] else []) ++
+      (if sameUpkeepSplit then ["deq-hands-one-workid-of-upkeep-sibling-stays"] else []) ++
       (if st.q.any (fun e => e.2.removed && !qExpired st.now e.2) then ["deq-skips-handed-record"] else []) ++
       (if st.q.any (fun e => !qExpired st.now e.2 && !e.2.removed && tg e.2.proposal.upkeepID != t) then ["deq-skips-other-type"] else []) ++
       (if keysOf.any (w.seen.contains ·) then ["rehanded-after-window"] else []) ++
